@@ -610,10 +610,20 @@ func strictEqualityComparison(x Value, y Value) bool {
 //	Array       -> []interface{}
 //	Object      -> map[string]interface{}
 func (v Value) Export() (interface{}, error) {
-	return v.export(), nil
+	var result interface{}
+	err := catchPanic(func() {
+		result = v.export()
+	})
+	return result, err
 }
 
 func (v Value) export() interface{} {
+	return v.exportPath(nil)
+}
+
+// exportPath exports v; path holds the objects whose export is in progress, so
+// that a cyclic structure ends in a TypeError instead of unbounded recursion.
+func (v Value) exportPath(path []*object) interface{} {
 	switch v.kind {
 	case valueUndefined:
 		return nil
@@ -630,6 +640,12 @@ func (v Value) export() interface{} {
 		}
 	case valueObject:
 		obj := v.object()
+		for _, outer := range path {
+			if outer == obj {
+				panic(obj.runtime.panicTypeError("cannot export a cyclic object value"))
+			}
+		}
+		path = append(path, obj)
 		switch value := obj.value.(type) {
 		case *goStructObject:
 			return value.value.Interface()
@@ -654,7 +670,7 @@ func (v Value) export() interface{} {
 				if !obj.hasProperty(name) {
 					continue
 				}
-				value := obj.get(name).export()
+				value := obj.get(name).exportPath(path)
 
 				t = reflect.TypeOf(value)
 
@@ -700,7 +716,7 @@ func (v Value) export() interface{} {
 		obj.enumerate(false, func(name string) bool {
 			value := obj.get(name)
 			if value.IsDefined() {
-				result[name] = value.export()
+				result[name] = value.exportPath(path)
 			}
 			return true
 		})
